@@ -359,11 +359,23 @@ def dense_blockdiag(blocks, key='m'):
     return M, ranges
 
 
-def build_matrix(blocks, conserve, qtot, labels, key='m', square_conj=False):
+def phase_vectors(nr, nc, phases):
+    """unit phases i^a per row / column (Gaussian integers stay exact; singular values are unchanged);
+    phases = 0: none"""
+    if not phases:
+        return np.ones(nr), np.ones(nc)
+    r = random.Random(phases)
+    return (np.array([1j ** r.randrange(4) for _ in range(nr)]), np.array([1j ** r.randrange(4) for _ in range(nc)]))
+
+
+def build_matrix(blocks, conserve, qtot, labels, key='m', square_conj=False, phases=0):
     """npc.Array for the spec's block-diagonal matrix; sector j carries charge blocks[j].q on the row leg."""
     import tenpy.linalg.np_conserved as npc
     from tenpy.linalg.charges import ChargeInfo, LegCharge
     M, ranges = dense_blockdiag(blocks, key)
+    if phases:
+        pr, pc = phase_vectors(M.shape[0], M.shape[1], phases)
+        M = (pr[:, None] * M * (pr.conj()[None, :] if square_conj else pc[None, :]))
     if not conserve:
         return npc.Array.from_ndarray_trivial(M, labels=list(labels)), M, ranges
     chinfo = ChargeInfo([1], ['N'])
@@ -400,12 +412,12 @@ def decomp_expect(res):
                 smax=max(res['sigma']))
 
 
-def check_svd_theta(l, conserve, qtot, with_qtotal_LR, order):
+def check_svd_theta(l, conserve, qtot, with_qtotal_LR, order, phases=0):
     import tenpy.linalg.np_conserved as npc
     from tenpy.linalg.truncation import svd_theta
     res = l['res']
     blocks = [res['blocks'][j] for j in order]
-    theta, M, ranges = build_matrix(blocks, conserve, qtot, ('vL', 'vR'))
+    theta, M, ranges = build_matrix(blocks, conserve, qtot, ('vL', 'vR'), phases=phases)
     theta0 = theta.copy(deep=True)
     opts, _ = py_options(l['opt'], 1.0)
     e = decomp_expect(res)
@@ -460,18 +472,18 @@ def check_svd_theta(l, conserve, qtot, with_qtotal_LR, order):
     return None
 
 
-def check_eigh_rho(l, conserve, sort, order):
+def check_eigh_rho(l, conserve, sort, order, phases=0, UPLO='L'):
     from tenpy.linalg.truncation import eigh_rho
     res = l['res']
     blocks = [res['blocks'][j] for j in order]
     if any(len(b['m']) != len(b['sigma']) for b in blocks):
         return 'skip'  # rho would have exact zero eigenvalues: numerically undefined multiplet structure
-    rho, R, ranges = build_matrix(blocks, conserve, 0, ('p', 'p*'), key='gram', square_conj=True)
+    rho, R, ranges = build_matrix(blocks, conserve, 0, ('p', 'p*'), key='gram', square_conj=True, phases=phases)
     opts, _ = py_options(l['opt'], 1.0)
     e = decomp_expect(res)
     with warnings.catch_warnings():
         warnings.simplefilter('ignore')
-        W, V, err = eigh_rho(rho, opts, sort=sort)
+        W, V, err = eigh_rho(rho, opts, UPLO=UPLO, sort=sort)
     if len(W) != e['k'] or V.shape != (R.shape[0], e['k']):
         return ('keep-count', dict(lenW=len(W), V=V.shape), e['k'])
     tolv = TOL * e['smax'] ** 2
@@ -490,7 +502,7 @@ def check_eigh_rho(l, conserve, sort, order):
         return ('eigen-equation', float(np.linalg.norm(R @ Vd - Vd @ np.diag(W * e['renorm2'] / e['N']))), 0.0)
     # trace-norm relative error of the truncated density matrix equals the reported eps
     trunc = Vd @ np.diag(W * e['renorm2'] / e['N']) @ Vd.conj().T
-    relerr = np.trace(R - trunc) / np.trace(R)
+    relerr = (np.trace(R - trunc) / np.trace(R)).real
     if abs(relerr - err.eps) > TOL:
         return ('reconstruction-error-equals-eps', float(relerr), float(err.eps))
     if tuple(V.get_leg_labels()) != ('p', 'eig'):
@@ -503,13 +515,16 @@ def check_eigh_rho(l, conserve, sort, order):
     return None
 
 
-def build_theta_pipes(blocks, conserve, qtot_L, qtot_R, a0, a1, mid_sizes):
+def build_theta_pipes(blocks, conserve, qtot_L, qtot_R, a0, a1, mid_sizes, phases=0):
     """theta with legs [(vL.p0), (p1.vR)] (p0, p1 of dimension 1 with charges a0, a1) whose matrix is the spec's
     block matrix, plus the bond leg between the (fictitious) old tensors T_L [vL,p0,vR], T_R [vL,p1,vR] with
     total charges qtot_L, qtot_R: charge rule of T_L gives q_mid = q_vL + a0 - qtot_L."""
     import tenpy.linalg.np_conserved as npc
     from tenpy.linalg.charges import ChargeInfo, LegCharge
     M, ranges = dense_blockdiag(blocks)
+    if phases:
+        pr, pc = phase_vectors(M.shape[0], M.shape[1], phases)
+        M = pr[:, None] * M * pc[None, :]
     T4 = M.reshape(M.shape[0], 1, 1, M.shape[1])
     if not conserve:
         chinfo = ChargeInfo()
@@ -536,7 +551,7 @@ def build_theta_pipes(blocks, conserve, qtot_L, qtot_R, a0, a1, mid_sizes):
     return theta, M, ranges, bond, qL, qR
 
 
-def check_qr(l, conserve, move_right, regime, minblock, qtot_L, qtot_R, order, use_eig):
+def check_qr(l, conserve, move_right, regime, minblock, qtot_L, qtot_R, order, use_eig, phases=0):
     """regime 'full'   : the bond is expanded to the full leg -> the result must be the truncated SVD of theta;
               'covered': expansion rate 0.1, but the old bond has as many states per charge sector as theta has
                          non-zero rows/columns there, so the initial guess Y0 (old block size + increase per sector,
@@ -546,7 +561,7 @@ def check_qr(l, conserve, move_right, regime, minblock, qtot_L, qtot_R, order, u
     res = l['res']
     blocks = [res['blocks'][j] for j in order]
     mid_sizes = [len(b['sigma']) if regime != 'partial' else 1 for b in blocks]
-    theta, M, ranges, bond, qL, qR = build_theta_pipes(blocks, conserve, qtot_L, qtot_R, 1, 2, mid_sizes)
+    theta, M, ranges, bond, qL, qR = build_theta_pipes(blocks, conserve, qtot_L, qtot_R, 1, 2, mid_sizes, phases=phases)
     Mperm = theta.to_ndarray()  # rows/columns permuted by the pipes: singular values unchanged
     opts, _ = py_options(l['opt'], 1.0)
     e = decomp_expect(res)
@@ -662,10 +677,12 @@ def replay_decompose(ctx, hists, quick):
         plans = []
         # svd_theta: with / without charges, non-zero qtotal, qtotal_LR, permuted sector order
         plans.append(('svd_theta', dict(conserve=True, qtot=0, with_qtotal_LR=False, order=ident)))
-        plans.append(('svd_theta', dict(conserve=True, qtot=rng.choice([1, 2, -1]), with_qtotal_LR=rng.random() < 0.5, order=shuffled)))
+        plans.append(('svd_theta', dict(conserve=True, qtot=rng.choice([1, 2, -1]), with_qtotal_LR=rng.random() < 0.5, order=shuffled,
+                                        phases=rng.choice([0, 1 + idx]))))
         if not quick or idx % 3 == ctx.seed % 3:
             plans.append(('svd_theta', dict(conserve=False, qtot=0, with_qtotal_LR=False, order=ident)))
-        plans.append(('eigh_rho', dict(conserve=True, sort=rng.choice([None, 'm>', '>', '<']), order=shuffled)))
+        plans.append(('eigh_rho', dict(conserve=True, sort=rng.choice([None, 'm>', '>', '<']), order=shuffled,
+                                       phases=rng.choice([0, 1 + idx]), UPLO=rng.choice(['L', 'U']))))
         if not quick or idx % 3 == (ctx.seed + 1) % 3:
             plans.append(('eigh_rho', dict(conserve=False, sort=None, order=ident)))
         qr_all = [dict(conserve=c, move_right=mr, regime=rg, minblock=mb, qtot_L=qq[0], qtot_R=qq[1], order=ident, use_eig=ue)
@@ -673,7 +690,7 @@ def replay_decompose(ctx, hists, quick):
                   for rg, mb in (('full', 8), ('covered', 0), ('covered', 1), ('partial', 1))
                   for qq in (((0, 0), (1, 0), (0, 1), (2, 1)) if c else ((0, 0),)) for ue in (False, True)]
         take = rng.sample(qr_all, 4 if quick else 8)
-        plans += [('decompose_theta_qr_based', p) for p in take]
+        plans += [('decompose_theta_qr_based', dict(p, phases=rng.choice([0, 1 + idx]))) for p in take]
         for fn, p in plans:
             try:
                 if fn == 'svd_theta':
